@@ -33,9 +33,18 @@ def run(ctx):
     for kc in generic_classes(ctx, ins):
         ctx.guard(revcomp_symmetry, ctx, kc, "C12.revcomp-symmetry.inside-cut")
     # every concrete generic (non-literal, non-part) class of the kits as well
+    from ..rules_pattern import has_generic_structure, CONFIRMED_NEXT_LEVEL_VECTORS
     for kc in ctx.inventory:
-        if kc.concrete and not kc.is_part and kc.structure_owner is not kc.ci:
-            ctx.guard(revcomp_symmetry, ctx, kc, "C12.revcomp-symmetry.kit")
+        if kc.concrete and not kc.is_part:
+            generic = has_generic_structure(ctx, kc)
+            if generic is None:
+                generic = kc.structure_owner is not kc.ci
+            if generic:
+                ctx.guard(revcomp_symmetry, ctx, kc, "C12.revcomp-symmetry.kit")
+            elif kc.ci.name in CONFIRMED_NEXT_LEVEL_VECTORS:
+                # the vectors that embed the next level's sites are strand-symmetric too (confirmed by hand on the pinned
+                # tree): the plasmids of the bundled registries typed by them are in the quantifier
+                ctx.guard(revcomp_symmetry, ctx, kc, "C12.revcomp-symmetry.kit-nested")
     from ..kernels import run_kernels
     run_kernels(ctx, ["K10", "K7", "K8", "K14", "K15", "K1"], "C12")
     from ..rules_flow import revcomp_wrapper_rule
